@@ -78,8 +78,9 @@ fn deprecation(directives: &[graphql_parser::schema::Directive<'_, String>], arg
                 (true, Value::Null)
             }
             None => {
-                // a real server would report the directive's default reason here
-                arguable.push("@deprecated without an explicit reason".into());
+                // Servers differ here: some report the directive's default reason, others (those
+                // that keep "no reason given" apart) report null. This stub is of the second
+                // kind; under that rendering both schema front-ends must agree.
                 (true, Value::Null)
             }
         },
